@@ -32,7 +32,7 @@ def optimalSize (op : BinOp) (x y : Fmt) : Bool × Int × Int :=
     let nf := x.nfrac + y.nfrac
     let nw : Int := x.nword + y.nword
     (s, nw - bsig s - nf, nf)
-  | .floordiv => (s, x.nint + y.nfrac + bsig s, 0)
+  | .floordiv => (s, max (x.nint + y.nfrac + bsig s) 0, 0)
   | .truediv => (s, x.nint + y.nfrac + bsig s, x.nfrac + y.nint)
   | .mod => (s, if s then max x.nint y.nint else min x.nint y.nint, max x.nfrac y.nfrac)
 
